@@ -1038,6 +1038,14 @@ def qname_oracle(env, items, info, m):
             out.append(O.Check('nested-prefix-other-namespace', 'Order.other (b:Item) must be %s::Item, is %s' % (RO.one(ib.module), ft.get('other')), ft.get('other') == '%s::Item' % RO.one(ib.module)))
             out.append(O.Check('nested-prefix-ref', 'Order.note (ref tns:Note) must be %s::Note, is %s' % (RO.one(ia.module), ft.get('note')), ft.get('note') == '%s::Note' % RO.one(ia.module)))
         return out + references_resolve(items)
+    if getattr(info, 'kinds', False):
+        ders = O.find_structs(items, 'Derived', env.allowed)
+        out.append(O.Check('struct-exactly-once', 'Derived emitted once (found %d)' % len(ders), len(ders) == 1, cls=lambda p: 'Derived'))
+        if len(ders) == 1:
+            names = tuple(RO.one(O.attr_get(fa, 'rename')) for fa, fd in ders[0].fields)
+            out.append(O.Check('base-is-the-type-not-the-element', 'Derived extends the complexType Thing (members from_type, rev), not the element Thing; its members are %s' % (names,),
+                               names == ('from_type', 'rev', 'own')))
+        return out
     if getattr(info, 'rebound', False):
         ia = struct_by_member(items, 'ia', 'Item')
         ib = struct_by_member(items, 'ib', 'Item')
@@ -1086,10 +1094,10 @@ def qname_oracle(env, items, info, m):
 def c09(tier):
     def body(s):
         s.functions.update(n for n in s.ctx.bodies if re.search(r'find_node_by_xml_name|try_to_find_node|resolve_type|split_type|as_rust_type|add_namespace_reference|collect_namespaces', n))
-        for sc, info in [F.q_types(tier), F.q_rebind(tier), F.q_default(tier), F.q_three(tier), F.q_nested(tier), F.q_rebound(tier)]:
+        for sc, info in [F.q_types(tier), F.q_rebind(tier), F.q_default(tier), F.q_three(tier), F.q_nested(tier), F.q_rebound(tier), F.q_kinds(tier)]:
             scenario_check(s, sc, info, qname_oracle, classify=lambda c, p, i: ','.join('%s=%s' % (k, v) for k, v in sorted(p.items()) if k != 'order'))
     return run_e2('C09', tier, body, bounds='two namespaces in two files defining complexTypes with the same local name; type= and base= references whose prefix is symbolic; '
-                  'declaration order symbolic (3 or all 6 orders); one prefix bound to different namespaces in different files; the only prefix of the target namespace bound on a nested element; a root prefix bound again on a nested element. Outside: element ref= / message part collisions '
+                  'declaration order symbolic (3 or all 6 orders); one prefix bound to different namespaces in different files; the only prefix of the target namespace bound on a nested element; a root prefix bound again on a nested element; a global element with an anonymous type and a complexType of the same name as an extension base (all 6 declaration orders). Outside: element ref= / message part collisions '
                   '(exercised by C05), kinds other than complexType.')
 
 
